@@ -264,6 +264,42 @@ def _merge_leading_temps(body, params):
     return body
 
 
+class _FunctionValueToLambda(ast.NodeTransformer):
+    def __init__(self, callees, report):
+        self.callees, self.report = callees, report
+
+    def visit_Call(self, node):
+        if not (isinstance(node.func, ast.Name) and node.func.id in self.callees):
+            node.func = self.visit(node.func)
+        node.args = [self.visit(a) for a in node.args]
+        for k in node.keywords:
+            k.value = self.visit(k.value)
+        return node
+
+    def visit_FunctionDef(self, node):
+        if node.name in self.callees:
+            return node
+        self.generic_visit(node)
+        return node
+
+    def visit_Name(self, node):
+        c = self.callees.get(node.id)
+        if c is None or not isinstance(node.ctx, ast.Load):
+            return node
+        a = c.node.args
+        if a.defaults or a.kwonlyargs or a.vararg or a.kwarg or a.posonlyargs or not a.args:
+            return node
+        from .model import _copy_tree
+        lam = ast.Lambda(args=_copy_tree(a), body=_copy_tree(c.body[0].value))
+        for x in ast.walk(lam.args):
+            if isinstance(x, ast.arg):
+                x.annotation = None
+        for x in ast.walk(lam):
+            ast.copy_location(x, node)
+        self.report.append(('inlined', c.qual, '-', 'function value written as the lambda it stands for'))
+        return lam
+
+
 def _leading_run(body, params):
     """`t1 = E1; ..; tk = Ek; S` with S reading t1..tk once each, in that order, before anything else it evaluates -> (k, names)"""
     from .model import _first_evaluated_seq
@@ -1358,6 +1394,10 @@ def normalise(trees, known=None, sources=None):
         for n in ast.walk(t):       # nested functions
             if isinstance(n, (ast.FunctionDef, ast.AsyncFunctionDef)) and id(n) not in own and not getattr(n, '_inl_done', False):
                 inl.inline_function(n)
+    # a one-expression helper passed as a value (`key=_tile_level`): the lambda it stands for (`key=lambda tile: tile.coord[2]`)
+    for rel, t in changed.items():
+        _FunctionValueToLambda({nm: c for nm, c in callees.items() if '.' not in nm and c.rel == rel and c.cls is None and not c.reason and
+                                c.pure_expr and not c.quantified}, report).visit(t)
     # drop the definitions nothing refers to any more (to a fixpoint: a dropped helper may hold the last reference to another)
     dropped = set()
     while True:
